@@ -297,6 +297,11 @@ KEEP_LEDGER = {
 }
 
 
+# (function, iterated expression) -> why leaving the rebuilding loop early loses nothing
+BREAK_LEDGER = {
+}
+
+
 def r01_5(run, model, only_files=None):
     run.rule("R01.5", "rebuild loops of the IR passes keep every element: a `for` that accumulates its result with a push/insert/extend at the "
                       "top level of its body has no `continue` before that statement (match arms, switch cases, rows, statements are never "
@@ -324,6 +329,14 @@ def r01_5(run, model, only_files=None):
             it = S.norm_ws(run.facts.text(f.file, loop["iter"]["sp"]))
             acc = S.norm_ws(run.facts.text(f.file, last["expr"]["recv"]["sp"]))
             led = KEEP_LEDGER.get((f.name, it))
+            # leaving the loop early drops every element that was still to come
+            brks = [x for x in S.walk_no_closures(loop["body"]) if x["k"] == "Break" and not any(S.span_contains(l2["sp"], x["sp"]) for l2 in inner)]
+            if brks:
+                bl = BREAK_LEDGER.get((f.name, it))
+                run.ob("R01.5", f"{f.name}|loop over {it[:40]} into {acc[:24]} visits every element", bl is not None, site(f.file, brks[0]["sp"]),
+                       f"{len(brks)} `break` in a loop that rebuilds its collection" + (f"; ledger: {bl}" if bl else ""),
+                       witness="Job { urgent: true, id } => .., Job { urgent: false, id } => ..: the rows behind a row judged to close the match are "
+                               "dropped; the second arm becomes `missing`")
             ok = not conts or led is not None
             run.ob("R01.5", f"{f.name}|loop over {it[:40]} into {acc[:24]} keeps every element" if ok else f"{f.name}|loop over {it[:40]} into {acc[:24]} skips elements", ok, site(f.file, loop["sp"]),
                    f"{len(conts)} `continue` before `{acc}.{last['expr']['method']}(..)`" + (f"; ledger: {led}" if led and conts else ""),
